@@ -754,6 +754,26 @@ func tiingoDoc(r *gen.Rand, n int) []byte {
 			AdjOpen: p, AdjHigh: p + 1, AdjLow: p - 1, AdjClose: p + 0.5, AdjVolume: int64(r.Range(0, 1e6)), Dividend: 0, Split: 1})
 	}
 	b, _ := json.Marshal(rows)
+	if n >= 2 && r.Intn(3) == 0 {
+		// a provider that leaves members out of some rows (they are zero then, not
+		// the previous row's values) and sends a null for a missing day
+		var generic []map[string]any
+		json.Unmarshal(b, &generic)
+		k := r.Range(1, n-1)
+		for _, member := range []string{"close", "adjClose", "high", "volume", "open"} {
+			if r.Bool() {
+				delete(generic[k], member)
+			}
+		}
+		var out []any
+		for i, g := range generic {
+			if i == k && r.Bool() {
+				out = append(out, nil)
+			}
+			out = append(out, g)
+		}
+		b, _ = json.Marshal(out)
+	}
 	return b
 }
 
